@@ -385,6 +385,61 @@ def run_agent_shutdown(params, known):
     return dict(name=params['name'], evaluations=count, nontrivial_keys=sorted(keys), violations=out_v, known=kn, samples=[])
 
 
+def run_peer_reset(params, known):
+    """The peer vanishes abortively (the connection is reset): the endpoint's next read fails with ECONNRESET.
+    At every stage - idle session, after its own terminate(), its own transfer unacknowledged, an inbound transfer half
+    received, both SESS_TERM exchanged with a transfer outstanding - the endpoint ends with its socket closed and its
+    contact announced closed, and no exception leaves a callback."""
+    import itertools
+    violations = []
+    kinds = set()
+    keys = set()
+    count = 0
+
+    def viol(kind, detail, case):
+        if kind in kinds:
+            return
+        kinds.add(kind)
+        v = Violation(PROP, 'termination', kind, dict(), '%r: %s' % (case, detail)).as_dict()
+        v['case'] = case
+        violations.append(v)
+    stages = ('negotiating', 'idle-session', 'after-terminate', 'own-transfer-unacknowledged', 'own-transfer-unacknowledged+terminate',
+              'inbound-half-received', 'inbound-half-received+terminate', 'both-terminating-transfer-outstanding')
+    for (role, stage, idle) in itertools.product(('passive', 'active'), stages, (0, 5)):
+        count += 1
+        case = dict(role=role, peer_reset_when=stage, idle_time=idle)
+        queued = (bytes(range(0xa0, 0xa3)).hex(),) if 'own-transfer' in stage or stage.startswith('both') else ()
+        w = PeerWorld(dict(role=role, idle=idle, keepalive=0, seg_mru=64, tx_init=64, queued=queued))
+        w.peer_write(T.enc_contact(0))
+        w.quiesce()
+        if stage != 'negotiating':
+            w.peer_write(T.enc_sess_init(0, 64, 1000, b'dtn://p/'))
+            w.quiesce()
+        if stage.startswith('inbound'):
+            w.peer_write(T.enc_segment(2, 7, b'ab', [T.ext_total_length(4)]))
+            w.quiesce()
+        if 'terminat' in stage and stage != 'negotiating':
+            w.bus_call(w.proc, PATH, 'terminate', 0, iface=IFACE)
+            w.quiesce()
+        if stage.startswith('both'):
+            w.peer_write(T.enc_sess_term(1, 0))
+            w.quiesce()
+        w.peer_reset()
+        w.quiesce()
+        for _ in range(4):
+            if w.r_closed() or w.next_deadline() is None:
+                break
+            w.apply(('tick',))
+            w.quiesce()
+        keys.add('%s/%s/%d' % (role, stage, idle))
+        if w.escaped:
+            viol('exception-escaped-callback', '%s: %s' % (w.escaped[-1][0], w.escaped[-1][2]), case)
+        elif not w.r_closed():
+            viol('connection-left-half-open-after-a-reset', 'the socket is still open, state %r' % (w.handler().get_session_state(),), case)
+        # (as for close() and an orderly end of stream, nothing is demanded about a transfer that had started)
+    return dict(name=params['name'], evaluations=count, nontrivial_keys=sorted(keys), violations=violations, known=[], samples=[])
+
+
 def run_narrow_path(params, known):
     """Termination under back-pressure: each direction of the connection holds at most `pipe` octets in flight
     (every write is short and blocks until the peer has read).  One or both users terminate, with and without a
@@ -519,6 +574,7 @@ def scenarios(tier):
     for part in range(8):
         if part == 0:
             out.append(dict(name='narrow-path', kind='enum', runner='run_narrow_path', params=dict(name='narrow-path'), weight=20))
+            out.append(dict(name='peer-reset', kind='enum', runner='run_peer_reset', params=dict(name='peer-reset'), weight=5))
         nm = 'agent-shutdown-%d/8' % (part + 1)
         out.append(dict(name=nm, kind='enum', runner='run_agent_shutdown', params=dict(name=nm, part=part, parts=8), weight=25))
     if tier == 'thorough':
